@@ -11,6 +11,7 @@ import (
 	"github.com/yuin/goldmark/ast"
 	"github.com/yuin/goldmark/parser"
 	"github.com/yuin/goldmark/renderer"
+	"github.com/yuin/goldmark/renderer/html"
 	"github.com/yuin/goldmark/text"
 	"github.com/yuin/goldmark/util"
 
@@ -189,6 +190,9 @@ type c20Scenario struct {
 	// instance, which then registers a probe of its own; both instances are built before either is used, and each must
 	// follow the priorities registered on itself.
 	Twin bool `json:"twin,omitempty"`
+	// Custom (with Twin): the shared list is the first option of a renderer.NewRenderer / parser.NewParser that the caller
+	// builds itself and passes with goldmark.WithRenderer / goldmark.WithParser, instead of an option of goldmark.New.
+	Custom bool `json:"custom,omitempty"`
 }
 
 type c20Ext struct{ f func(m goldmark.Markdown) }
@@ -253,6 +257,18 @@ func c20BuildShared(s c20Scenario, log *c20Log, shared []util.PrioritizedValue) 
 		var po parser.Option
 		var ro renderer.Option
 		if pi == 0 && shared != nil {
+			if s.Custom {
+				// the caller's own Parser / Renderer object, built from the shared list (which then also holds the built-ins)
+				if s.Cat == "renderer" {
+					newOpts = append(newOpts, goldmark.WithRenderer(renderer.NewRenderer(renderer.WithNodeRenderers(shared...))))
+				} else {
+					opts := []parser.Option{parser.WithBlockParsers(parser.DefaultBlockParsers()...), parser.WithInlineParsers(parser.DefaultInlineParsers()...),
+						parser.WithParagraphTransformers(parser.DefaultParagraphTransformers()...)}
+					lo, _ := c20ListOption(s.Cat, shared...)
+					newOpts = append(newOpts, goldmark.WithParser(parser.NewParser(append([]parser.Option{lo}, opts...)...)))
+				}
+				continue
+			}
 			po, ro = c20ListOption(s.Cat, shared...)
 		} else {
 			po, ro = c20ListOption(s.Cat, c20Component(s.Cat, p, log))
@@ -394,8 +410,11 @@ func c20RunScenario(s c20Scenario) (string, []string) {
 func c20RunTwin(s c20Scenario) (string, []string) {
 	log := &c20Log{}
 	shared := make([]util.PrioritizedValue, 0, 8)
+	if s.Custom && s.Cat == "renderer" {
+		shared = append(shared, util.Prioritized(html.NewRenderer(), c20PrioHTML))
+	}
 	shared = append(shared, c20Component(s.Cat, s.Probes[0], log))
-	sb := c20Scenario{Cat: s.Cat, Doc: s.Doc, Probes: []c20Probe{s.Probes[0], {Name: "T", Prio: 7, Route: s.Probes[len(s.Probes)-1].Route, Accept: true, Free: s.Probes[0].Free}}}
+	sb := c20Scenario{Cat: s.Cat, Doc: s.Doc, Twin: true, Custom: s.Custom, Probes: []c20Probe{s.Probes[0], {Name: "T", Prio: 7, Route: s.Probes[len(s.Probes)-1].Route, Accept: true, Free: s.Probes[0].Free}}}
 	var outA, outB bytes.Buffer
 	var descA, descB string
 	var evA []string
@@ -577,6 +596,8 @@ func runC20(c *core.Ctx) {
 								if n == 2 {
 									t := s
 									t.Twin = true
+									run(t)
+									t.Custom = true
 									run(t)
 								}
 							}
